@@ -64,6 +64,9 @@ def run(ctx):
     inf_rule(ctx)
     from ..report import reuse as _reuse
     from . import c11 as _c11
+    from . import c15 as _c15
+    _reuse(ctx, _c15.evidence_dtype_rule, ("C15.evid",), "C08evid", "precision rule shared with C15: the total is rebuilt from the recorded series; increments narrowed to Python floats come back in the "
+           "namespace's default width (float32 under torch), so the reported log-evidence is not the sum of the recorded increments to the run's precision")
     _reuse(ctx, _c11.run, ("C11.cut",), "C08cut", "cut-point rule shared with C11: a checkpoint taken before the iteration's ratio is recorded makes a resumed run drop that step from the evidence")
     S = repo.cls("aspire.samples:SMCSamples")
     N = T.app("len", self_attr("x"))
@@ -244,6 +247,9 @@ MUTANTS = [
 ]
 MUTANTS += [
     M("checkpoint shares the ratio lists", _B, "history_copy = copy.deepcopy(self.history)", "history_copy = copy.copy(self.history)", "C08.ckpt"),
+]
+MUTANTS += [
+    M("per-step ratio returned as a Python float", "src/aspire/samples.py", "return logsumexp(log_w) - math.log(len(self.x))", "return float(logsumexp(log_w) - math.log(len(self.x)))", "C08evid.evid"),
 ]
 NEUTRALS = [
     __import__("aspire_sa.rules.smcloop", fromlist=["HELPER_NEUTRAL"]).HELPER_NEUTRAL,
